@@ -75,7 +75,7 @@ pub fn run(cases: &[Vec<String>]) {
     }
 }
 
-async fn run_case(setup: String, events: String, take: bool) -> String {
+pub async fn run_case(setup: String, events: String, take: bool) -> String {
     let clock = Clock::new();
     let wire: WireLog = Default::default();
     let tp = TpHandle::new(MockTp::udp(wire.clone(), clock.0));
@@ -254,6 +254,29 @@ async fn run_case(setup: String, events: String, take: bool) -> String {
                         outs.push(format!("X:{:?}", recs));
                     }
                 }
+            }
+            "K" => {
+                // the free function register_usage with keys of dialogs that do not exist (never did, or were torn down): it
+                // returns None and leaves nothing behind
+                let n: usize = p[1].parse().unwrap();
+                let mut some = 0;
+                for j in 0..n {
+                    let key = sip_ua::dialog::DialogKey { call_id: format!("gone-{}", j).into(), peer_tag: Some("pgone".into()), local_tag: "lgone".into() };
+                    let g = sip_ua::dialog::register_usage(endpoint.clone(), dialog_layer, key, RecUsage { id: 990 + j as u32, log: ulog.clone(), take });
+                    if g.is_some() {
+                        some += 1;
+                    }
+                    drop(g);
+                }
+                outs.push(if some == 0 { "-".into() } else { format!("registered:{}", some) });
+            }
+            "U" => {
+                // a further usage is registered on dialog d (its number is the count of usages registered there so far)
+                let d: usize = p[1].parse().unwrap();
+                let u = guards[d].len();
+                let g = dialogs[d].register_usage(RecUsage { id: (d * 10 + u) as u32, log: ulog.clone(), take });
+                guards[d].push(Some(g));
+                outs.push("-".into());
             }
             "D" => {
                 let d: usize = p[1].parse().unwrap();
